@@ -146,6 +146,19 @@ def is_numeric(expr):
     except:
         return False
 
+def is_same_expr(a, b):
+    """Do a and b denote the same quantity? Also sees through distinct slicing nodes of one decision variable (is_equal does not)"""
+    a = cs.MX(a)
+    b = cs.MX(b)
+    if a.shape!=b.shape: return False
+    if cs.is_equal(a, b, 2): return True
+    try:
+        d = a-b
+        s = veccat(*symvar(d))
+        return float(norm_inf(evalf(jacobian(d, s))))==0 and float(norm_inf(evalf(substitute(d, s, DM.zeros(s.shape)))))==0
+    except:
+        return False # difference is not affine in the symbols
+
 def DM2numpy(dm, expr_shape, tdim=None):
     if tdim is None:
         return np.array(dm).squeeze()
